@@ -71,11 +71,12 @@ def _run(prop, tier, seed, plan, obs, work, t0, mod):
             import traceback
             native_results = [{'name': 'native-checks-crashed', 'ok': False, 'detail': traceback.format_exc()[-1500:]}]
         print(f'  native by-product checks: {len(native_results)} in {time.time() - tn:.1f}s', flush=True)
-    results = runner.run_all(obs, work, progress)
+    wall_budget = float(os.environ.get('VERIF_WALL_BUDGET', '0') or 0) or (plan.get('wall_budget') or (900.0 if tier == 'quick' else 3300.0))
+    results = runner.run_all(obs, work, progress, wall_budget=wall_budget)
     byname = {o.name: o for o in obs}
     tolerated = known.tolerated(prop)
     violations, inconclusive, errors, vacuous, knowns = [], [], [], [], {}
-    exhausted = unexhausted = 0
+    exhausted = unexhausted = not_run = 0
     paths = witnessed = artifacts = queries = 0
     solver_s = 0.0
     nontrivial = 0
@@ -107,6 +108,8 @@ def _run(prop, tier, seed, plan, obs, work, t0, mod):
                 vacuous.append((r['name'], missing, hs.get('tags')))
         elif st == 'CANNOT_CONFIRM':
             unexhausted += 1
+        elif st == 'NOT_RUN':
+            not_run += 1
         elif st == 'ERROR':
             errors.append((r['name'], r.get('error', '')[-800:]))
         elif st in ('EXEC_ERR', 'PRE_UNSAT', 'NO_CONDITIONS'):
@@ -181,6 +184,8 @@ def _run(prop, tier, seed, plan, obs, work, t0, mod):
         'discharged': exhausted,
         'exhausted': exhausted,
         'unexhausted': unexhausted,
+        'not_run_wall_budget': not_run,
+        'wall_budget_s': wall_budget,
         'inconclusive': len(inconclusive),
         'vacuous': len(vacuous),
         'harness_errors': len(errors),
@@ -212,7 +217,7 @@ def _run(prop, tier, seed, plan, obs, work, t0, mod):
         with open(os.path.join(ROOT, 'evidence', f'{prop}.json'), 'w') as f:
             json.dump(ev, f, indent=1, default=repr)
     print(f'== {prop} {tier}: obligations={len(obs)} exhausted={exhausted} unexhausted={unexhausted} '
-          f'inconclusive={len(inconclusive)} vacuous={len(vacuous)} errors={len(errors)} violations={len(violations)} '
+          f'not_run={not_run} inconclusive={len(inconclusive)} vacuous={len(vacuous)} errors={len(errors)} violations={len(violations)} '
           f'paths={paths} witnesses={witnessed} solver_queries={queries} solver_s={solver_s:.1f} wall={wall:.1f}s', flush=True)
     if violations:
         return 1
